@@ -10,6 +10,7 @@ use std::io::Seek;
 use std::io::Write;
 use std::path::PathBuf;
 use std::time::Duration;
+use std::time::Instant;
 
 use anyhow::Context;
 use anyhow::Result;
@@ -99,6 +100,7 @@ impl Runner for SubprocessRunner {
         }
 
         // constraint max execution time?
+        let started = Instant::now();
         let mut comm = process.communicate_start(Some(input.as_bytes().to_vec()));
         if let Some(timeout) = testcase.config.timeout {
             comm = comm.limit_time(timeout);
@@ -118,6 +120,31 @@ impl Runner for SubprocessRunner {
                 stderr,
                 process.wait().context("capture process exit")?.into(),
             ),
+
+            // the shell is gone before it has read all of its input (an early
+            // `exit` with many more lines to come): writing to its STDIN fails,
+            // which is reported as a broken pipe or -- under a time limit that
+            // has not passed -- as a timeout. It is neither: the execution ended,
+            // the output is complete and the exit code is what counts
+            Err(err)
+                if (err.kind() == ErrorKind::BrokenPipe
+                    || (err.kind() == ErrorKind::TimedOut
+                        && testcase
+                            .config
+                            .timeout
+                            .is_some_and(|timeout| started.elapsed() < timeout)))
+                    && matches!(
+                        process.wait_timeout(Duration::from_millis(100)),
+                        Ok(Some(_))
+                    ) =>
+            {
+                let (stdout, stderr) = err.capture;
+                (
+                    stdout,
+                    stderr,
+                    process.wait().context("capture process exit")?.into(),
+                )
+            }
 
             // bummer, a sad thing happened
             Err(err) => {
@@ -185,6 +212,7 @@ impl From<ExitStatus> for OutputExitStatus {
 #[cfg(test)]
 mod tests {
     use std::time::Duration;
+use std::time::Instant;
 
     use super::Runner;
     use super::SubprocessRunner;
